@@ -300,6 +300,10 @@ def d_drop(d, k):
     return Dyn.d(z3.Store(Dyn.dom(d), k, z3.BoolVal(False)), z3.Store(Dyn.val(d), k, Dyn.none), Dyn.size(d) - z3.If(z3.Select(Dyn.dom(d), k), 1, 0))
 
 
+_OR = z3.Or(z3.Bool('p'), z3.Bool('q')).decl()
+_ITE = z3.If(z3.Bool('p'), Dyn.none, Dyn.none).decl()
+
+
 def d_merge(ex, c, s):
     """dict c updated with dict s (s wins); exact for the domain and the values, the size is characterised by bounds"""
     c, s = z3.simplify(c), z3.simplify(s)
@@ -307,9 +311,9 @@ def d_merge(ex, c, s):
         return s
     if s.eq(EMPTY):
         return c
-    k = z3.Int(ex.fresh_name('mk'))
-    dom = z3.Lambda([k], z3.Or(z3.Select(Dyn.dom(c), k), z3.Select(Dyn.dom(s), k)))
-    val = z3.Lambda([k], z3.If(z3.Select(Dyn.dom(s), k), z3.Select(Dyn.val(s), k), z3.Select(Dyn.val(c), k)))
+    # pointwise combinators of z3's array theory (decidable, unlike lambdas)
+    dom = z3.Map(_OR, Dyn.dom(c), Dyn.dom(s))
+    val = z3.Map(_ITE, Dyn.dom(s), Dyn.val(s), Dyn.val(c))
     n = z3.Int(ex.fresh_name('msize'))
     sc, ss = Dyn.size(c), Dyn.size(s)
     ex.add_def(z3.And(n >= sc, n >= ss, n <= sc + ss, z3.Implies(sc == 0, n == ss), z3.Implies(ss == 0, n == sc)))
@@ -1358,6 +1362,22 @@ def q_forall_items(ex, args, kwargs):
 def q_sole_key(ex, args, kwargs):
     (d,) = args
     return mk_str(SOLE(Dyn.dom(_dict_term(ex, d))))
+
+
+_VALUE_UFS = {}
+
+
+def register_uf(fn, tag):
+    """fn(x): natively the given function; symbolically an uninterpreted function of the *value* of x into opaque
+    identities of kind tag (only determinism is known)"""
+    f = z3.Function('uf_' + fn.__name__, Dyn, _IntS)
+    _VALUE_UFS[fn] = f
+
+    def impl(ex, args, kwargs):
+        (x,) = args
+        return Sym(z3.simplify(f(to_dyn(ex, x))), ('opq', tag))
+
+    SS.SPEC_FORMS[fn] = impl
 
 
 SS.SPEC_FORMS.update(
